@@ -128,6 +128,7 @@ class HWorld:
         self.obs = []  # (command index, op, outcome, root, value) of every step
         self.cut = []  # [start, end] command index ranges of batches that did not commit
         self.fired = []  # fault directives that fired in this step
+        self.stop = False
 
     # ------------------------------------------------------------------
     def run(self, cmds):
@@ -136,7 +137,12 @@ class HWorld:
             for i, cmd in enumerate(cmds):
                 self.idx = i
                 self.step(cmd)
-            self.finish()
+                if self.stop:
+                    # the store is in a condition about which no property says anything
+                    # (see the world that set the flag): the run ends here
+                    break
+            if not self.stop:
+                self.finish()
         finally:
             self.close()
             restore_cache_knob()
